@@ -125,6 +125,10 @@ def run_check(prop, tier, seed, families):
         # code -> spec: long random histories with large bounds, validated by TLC (spec/TraceArray.tla)
         from .. import tracecheck
         tracecheck.run_random(run, prop, 2000 if tier == 'thorough' else 120, 60 if tier == 'thorough' else 40, seed)
+        if tier == 'thorough' or prop == 'C03':
+            # ... and the executions of the repository's own tests
+            from .. import testtrace
+            testtrace.run_repo_tests(run, prop)
     run.cov['rule'] = ('every macro-edge (public call from a quiescent state) of the TLC state graph of spec/Array.tla '
                        'is executed on the real darr.Array from a materialised source state and the projection of the '
                        'directory, live handle and fresh handle is compared with the spec target; paths are walks of '
